@@ -6,6 +6,8 @@ import Driver.Util
     task <id>: <subs>      body of task <id>
     dtor <id>: <subs>      what the destruction of task <id>'s functor object does (the destructor of what it owns)
     pre: <subs>            what the loop's owner does before loop() (elt: inside the ThreadInitCallback)
+    again: <subs>          plain mode, repeatable, in order: what the owner does after loop() has returned, followed by
+                           another call of loop() on the same object (an empty segment = call loop() again at once)
     thread <k>: <subs>     program of thread k
     follow <k k k …>       which thread performs the next visible event
     schedule … | spurious  (raw detsched schedule, spurious wake-ups: meaningless for the model, ignored)
@@ -31,6 +33,7 @@ structure Cfg where
   tasks : List (Nat × List Sub) := []
   dtors : List (Nat × List Sub) := []
   pre : List Sub := []
+  again : List (List Sub) := []
   threads : List (Nat × List Sub) := []
   follow : List Nat := []
 
@@ -93,6 +96,7 @@ def parseLine (c : Cfg) (line : String) : Option Cfg :=
       | [head, body] =>
         match words head, parseSubs (words body) with
         | ["pre"], some b => some { c with pre := b }
+        | ["again"], some b => some { c with again := c.again ++ [b] }
         | ["task", id], some b => (parseNat id).bind fun n =>
             if n ≤ 255 then some { c with tasks := (n, b) :: c.tasks.filter (fun p => p.1 != n) } else none
         | ["dtor", id], some b => (parseNat id).bind fun n =>
@@ -190,7 +194,7 @@ def main (lines : Array String) : IO UInt32 := do
   let tasks := c.tasks
   let dtors := c.dtors
   let threads := c.threads
-  let mut s : St := init c.elt false (fun t => lookup tasks t) (fun t => lookup dtors t) c.pre (fun k => lookup threads k)
+  let mut s : St := init c.elt false (fun t => lookup tasks t) (fun t => lookup dtors t) c.pre (if c.elt then [] else c.again) (fun k => lookup threads k)
   let mut cur : Nat := 0
   -- the directed part
   for k in c.follow do
